@@ -123,7 +123,8 @@ def _build(spec, task_overrides, ns, m):
                 team.append_targeted_task(m.tasks[i])
         m.teams.append(team)
     m.project = ns.BaseProject(
-        init_datetime=datetime.datetime(2020, 1, 1, 8, 0, 0), unit_timedelta=datetime.timedelta(days=1),
+        init_datetime=(datetime.datetime(*spec["init_datetime"]) if spec.get("init_datetime") else datetime.datetime(2020, 1, 1, 8, 0, 0)),
+        unit_timedelta=datetime.timedelta(days=1),
         product=ns.BaseProduct(m.comps),
         workflow=ns.BaseWorkflow([m.tasks[k] for k in spec["task_order"]] if spec.get("task_order") else list(m.tasks)),
         organization=ns.BaseOrganization(m.teams, m.wps))
